@@ -12,7 +12,8 @@ def handlers : List (List Sexp → Option Sexp) :=
     Driver.trimArityHandle,
     Driver.actionGateHandle,
     Driver.threadsHandle,
-    Driver.regexHandle ]
+    Driver.regexHandle,
+    Driver.prHandle ]
 
 def dispatch (line : String) : String :=
   match Sexp.parseAll line with
